@@ -49,7 +49,9 @@ private:
     using ComplexVector = Eigen::Matrix<Complex, Eigen::Dynamic, 1>;
     using SparseComplexMatrix = Eigen::SparseMatrix<Complex, Flags, StorageIndex>;
 
-    using ComplexSolver = Eigen::SparseLU<SparseComplexMatrix>;
+    // Eigen::SparseLU works on column-major matrices; with a row-major matrix type it
+    // factorizes the transpose. The shifted matrix is converted when it is passed to compute()
+    using ComplexSolver = Eigen::SparseLU<Eigen::SparseMatrix<Complex, Eigen::ColMajor, StorageIndex>>;
 
     ConstGenericSparseMatrix m_mat;
     const Index m_n;
